@@ -419,6 +419,9 @@ func (f *File) findAndReadMfra(r io.Reader) error {
 	if !ok {
 		return fmt.Errorf("expecting mfra box, but got %T", b)
 	}
+	if len(mfra.Tfras) == 0 {
+		return fmt.Errorf("mfra box without tfra")
+	}
 	f.tfra = mfra.Tfras[0]
 	for i := 1; i < len(mfra.Tfras); i++ {
 		if mfra.Tfras[i].TrackID == f.tfra.TrackID {
